@@ -99,12 +99,42 @@ func replayC01Expr(env *core.Env, a []json.RawMessage) {
 }
 
 func runC01(env *core.Env) {
+	c01History(env)
 	c01Stream1(env)
 	c01Stream2(env)
 	c01Stream2m(env)
 	c01Stream2e(env)
 	c01Stream3(env)
 	c01Stream4(env)
+}
+
+// c01History: inputs whose first evaluation fails in an orderly way are evaluated again, from freshly compiled and
+// from reused expressions, in the same process (anything remembered from the failed attempt is used now).
+func c01History(env *core.Env) {
+	n := 0
+	for _, pat := range []string{"'(['", "'['", "'('", "'*'", "'a{2,1}'", "'\\\\'", "'(?P<n'", "'[[:foo:]]'", "'a**'", "'\\\\p{Foo}'", "'(?<!a)b'", "''", "'.*'"} {
+		for _, tmpl := range []string{"'abc'.matches(%s)", "'abc'.replaceMatches(%s, 'x')", "'abc'.matches(%s) or true", "Patient.name.given.select($this.matches(%s))", "'a,b'.split(%s)", "'abc'.contains(%s)", "'abc'.replace(%s, 'x')", "'abc'.indexOf(%s)"} {
+			n++
+			if !env.Mine(n) {
+				continue
+			}
+			src := fmt.Sprintf(tmpl, pat)
+			for k := 0; k < 3; k++ {
+				c01Expr(env, "history", "repeat:"+tmpl, src, true)
+			}
+			env.Cover("history/repeated-failing-input")
+		}
+	}
+	for _, src := range []string{"'x'.toInteger()", "'5 zz'.toQuantity()", "@2020-01-31 + 1 'kg'", "1 / 0", "(1 | 2).single()", "%nosuch", "'abc'.substring('a')", "Patient.nosuch", "'2020-13-01'.toDate()", "'25:00'.toTime()", "'1e400'.toDecimal()", "1.5.round(-1)", "%multi.skip('x')", "2147483647 + 1", "@9999-12-31 + 1 day", "'a'.toChars().join(1)"} {
+		n++
+		if !env.Mine(n) {
+			continue
+		}
+		for k := 0; k < 3; k++ {
+			c01Expr(env, "history", "repeat", src, true)
+		}
+		env.Cover("history/repeated-failing-input")
+	}
 }
 
 func c01Stream1(env *core.Env) {
@@ -213,7 +243,7 @@ func c01Stream1(env *core.Env) {
 		}
 		// $this-based and criteria-style arguments for the functions taking expressions
 		for _, recv := range pool {
-			for _, arg := range []string{"$this", "$this = 1", "$this.length() > 1", "given", "$this / 0", "$this.substring(-1)", "%multi", "{}", "true", "1 | 2"} {
+			for _, arg := range []string{"$this", "$this = 1", "$this.length() > 1", "given", "$this / 0", "$this.substring(-1)", "%multi", "{}", "true", "1 | 2", "$index", "$total", "$index = 0", "$total + 1"} {
 				n++
 				if env.Mine(n) {
 					c01Expr(env, "stream1", "func:"+name+"/1x:"+recv.Class, fmt.Sprintf("(%s).%s(%s)", recv.Src, name, arg), true)
